@@ -10350,6 +10350,14 @@ let obs_opt_puri = function
 | Some u -> (Zpos XH) :: (obs_puri u)
 | None -> (Zneg XH) :: []
 
+(** val callid_sig_ip : bool -> n -> n -> byte list -> n * n **)
+
+let callid_sig_ip has6 o6 l6 cid =
+  let (p, _) = contains_ip4 cid in
+  let (p0, l4) = p in
+  let (h4, o4) = p0 in
+  if h4 then callid_sig_at true o4 l4 cid else callid_sig_at has6 o6 l6 cid
+
 (** val run_msgsig : z list -> byte list -> z list **)
 
 let run_msgsig nums buf =
@@ -10368,7 +10376,7 @@ let run_msgsig nums buf =
      let io = Z.to_N (nthz nums (S (S (S (S (S (S (S (S (S O)))))))))) in
      let il = Z.to_N (nthz nums (S (S (S (S (S (S (S (S (S (S O))))))))))) in
      let r =
-       get_msg_sig (fun cid -> callid_sig_at has io il cid) str_sig0
+       get_msg_sig (fun cid -> callid_sig_ip has io il cid) str_sig0
          viabr_sig0 m buf
      in
      app ((n2z o) :: ((n2z (err_code e)) :: []))
@@ -10437,7 +10445,7 @@ let entry kind nums strs =
                             (match p5 with
                              | XH ->
                                let (sg, l) =
-                                 callid_sig_at
+                                 callid_sig_ip
                                    (negb (Z.eqb (nthz nums O) Z0))
                                    (Z.to_N (nthz nums (S O)))
                                    (Z.to_N (nthz nums (S (S O)))) s0
